@@ -17,7 +17,7 @@ from sim.trace import EventLog, canon, ddmin
 CASE_TIMEOUT = 900
 LEVEL = {"C16": "exploration"}
 PLAN = {"C16": {
-    "quick": {"runs": 6000, "wall_cap": 115, "chunk": 25, "selftest": 6},
+    "quick": {"runs": 11000, "wall_cap": 115, "chunk": 25, "selftest": 6},
     "thorough": {"runs": 200000, "wall_cap": 1700, "chunk": 50, "selftest": 30},
 }}
 RULE = {"C16": (
